@@ -13,8 +13,10 @@ RULE = ("one case = one run of the real std_runtime code: a script of sleep/poll
         "operations on one TimerDriver (recording wakers, recorded Instants), or one block_timeout / block_on call on a "
         "scripted multi-stage future, or a set of tasks on one Executor; all random choices from one PRNG; distinct = "
         "distinct input line; non-trivial = at least one timer wake-up / one wake of the blocked future was observed")
-TRUSTED = ["theories/Sched/TimerModel.v and TimerBlockModel.v are hand transcriptions of std_runtime/timer.rs and "
-           "executor.rs (block_timeout, block_on)",
+TRUSTED = ["theories/Sched/TimerModel.v, TimerBlockModel.v and TimerExecModel.v are hand transcriptions of "
+           "std_runtime/timer.rs and executor.rs (block_timeout, block_on, the join handshake); the timer and "
+           "block_timeout/block_on models are replayed against the real code on every check, the join-handshake "
+           "model is not (executor runs are checked by the trace oracle only)",
            "harness/src/bin/c42.rs: recording RawWaker (clone/wake/drop callbacks), the Debug output of Sleep/Instant is "
            "parsed to observe id and deadline exactly (if that fails the trace is marked inexact and only the oracle is applied)",
            "std::sync::mpsc (FIFO per sender, recv_timeout returns a message if one is there), thread::park/unpark and "
@@ -103,7 +105,7 @@ def gen_ex(r):
 
 
 def gen(r, tier):
-    n = {"quick": 1100, "search": 3000, "thorough": 12000}[tier]
+    n = {"quick": 1400, "search": 3000, "thorough": 12000}[tier]
     cases = []
     while len(cases) < n:
         k = r.random()
@@ -257,8 +259,8 @@ def _block_events(out, polls=True):
 
 
 def case_term(c, out):
-    if out is None or out.startswith(("PANIC", "ABORT", "HANG", "BADOP")):
-        return None
+    if out is None or out.startswith(("PANIC", "ABORT", "HANG", "BADOP")) or len(out) > 300000:
+        return None      # crash, hang, or a runaway trace (busy loop)
     w = c.split()
     if w[0] == "t":
         return _timer_term(out)
@@ -323,7 +325,8 @@ MANIFEST = {
              "entry is due and always waits exactly until the earliest deadline, no Wake message is ever lost, every due "
              "entry is woken by the thread's own next steps, a polled Sleep whose deadline has passed returns Ready, "
              "after the Cancel message of a dropped Sleep has been consumed no wake-up for it is ever issued (a witness "
-             "shows the window between drop and consumption), block_on returns exactly the future's output, "
+             "shows the window between drop and consumption), the executor's join handshake never loses the wake-up and a "
+             "finished task is never polled again, block_on returns exactly the future's output, "
              "block_timeout returns Timeout only after the whole duration and - outside one recorded class - only if "
              "the future had not completed by then. The model is tied to the code by running the real public "
              "std_runtime API under recording wakers with recorded Instants and replaying every trace through the "
@@ -331,7 +334,8 @@ MANIFEST = {
              "is applied to the implementation's own traces."),
     "note": ("Not covered (runtime behaviour a model cannot exhibit): OS scheduling latency of the timer/executor "
              "threads, park/unpark, accuracy of recv_timeout - so 'always completes after the deadline' has no time "
-             "bound. Executor spawn/join is checked on traces only (no theorem). Trusted: Coq kernel + vm_compute, the "
+             "bound. Executor spawn/join: the join handshake is proved on its own small model; real executor runs are "
+             "checked by the trace oracle only. Trusted: Coq kernel + vm_compute, the "
              "hand models, the harness (recording RawWaker, Debug parsing of Sleep/Instant), std mpsc semantics. "
              "Axioms: none. Known finding C42-timeout-unseen-wake: block_timeout returns Timeout from its else branch "
              "without looking at the channel."),
